@@ -171,12 +171,26 @@ def env_case(cid, rec):
             return "%s %s %s" % (lit(e[2]), e[1], name(e[3]))
         return "%s %s %s" % (name(e[2]), e[1], name(e[3]))
     c = dict(id=cid, kind="env", prog=p, d="ok", lines=[], expect=[], classes=[], uneval_ok=False, oracle=True)
-    # input class C07-macro-sign-paste: a macro body `-X` where X is a macro whose own body starts with `-`
+    # input class C07-macro-sign-paste: a macro body `-X` where X is an object-like macro whose fully
+    # replaced text starts with `-`
+
+    def first(j):
+        d = p[j - 1]
+        if d["k"] == "macroP":
+            return "("
+        if d["k"] != "macroB":
+            return "n"                      # a C++ name
+        e = d["e"]
+        if e[0] == "lit":
+            return lit(e[1])[0]
+        if e[0] == "neg":
+            return "-"
+        if e[0] == "lr":
+            return lit(e[2])[0]
+        return first(e[1] if e[0] == "ref" else e[2])
     for dcl in p:
-        if dcl["k"] in ("macroP", "macroB") and dcl["e"] and dcl["e"][0] == "neg":
-            tgt = p[dcl["e"][1] - 1]
-            if tgt["k"] == "macroB" and expr(tgt["e"]).startswith("-"):
-                c["classes"] = ["C07-macro-sign-paste"]
+        if dcl["k"] in ("macroP", "macroB") and dcl["e"] and dcl["e"][0] == "neg" and first(dcl["e"][1]) == "-":
+            c["classes"] = ["C07-macro-sign-paste"]
     cur, ne = None, 0
     for i, dcl in enumerate(p, 1):
         k = dcl["k"]
